@@ -35,7 +35,8 @@ MANIFEST = {
             "NOT modelled in Lean (imported tables): oracle only; neutron elastic is not driven. "
             "No worst-case draw bound exists for adversarial streams; KN per-iteration acceptance "
             ">= 1/2 is proved, draw counts are measured. Momentum conservation is FALSE for "
-            "EPlusGGInteractor as written (negation proved; known finding eplusgg-momentum).",
+            "EPlusGGInteractor as written (negation proved; known finding eplusgg-momentum); the "
+            "other momentum theorems carry the hypothesis rotOK (rotate() sign loss near ±z).",
 }
 
 EMASS = 0.5109989461
@@ -573,8 +574,9 @@ def run(ctx):
         "executed at Float equal the real interactors' outputs bit-for-bit on every op compared",
         "scripted uniforms are canonical values in [0,1); unit incident direction; documented "
         "preconditions (E > 2·cut Møller, E > cut Bhabha, E >= 2 m_e Bethe–Heitler) are hypotheses",
-        "rotate() is modelled as repaired in /repo (sin φ keeps the sign of y in the near-pole "
-        "branch); the oracle key rotate-near-z-negative-y guards the old failure",
+        "rotOK (not a documented precondition of rotate): the momentum theorems exclude incident "
+        "directions with 0 < sinθ < 0.005 and negative y, where rotate() loses the sign of sin φ "
+        "and the real code fails (known finding rotate-near-z-negative-y; modelled as written)",
         "energy samplers backed by imported tables (Seltzer–Berger, relativistic brems, Wentzel, "
         "Rayleigh form factors, Livermore shells/relaxation), Bethe–Heitler above 2 MeV, MuBB, "
         "Bragg/ICRU73QO, muon bremsstrahlung: oracle only; neutron elastic: not driven (no fixture)",
